@@ -452,8 +452,8 @@ def ob_templates(nargs):
         values = mesonlib.get_filenames_templates_dict(list(inputs), list(outputs))
         cmd = []
         for i in range(nargs):
-            pre = sym_str(choose(2, 'prelen%d' % i), 'pre%d' % i, alphabet='a@ $')
-            post = sym_str(choose(2, 'postlen%d' % i), 'post%d' % i, alphabet='a@ $')
+            pre = sym_str(choose(3, 'prelen%d' % i), 'pre%d' % i, alphabet='aA@ $')          # 'A': an unknown upper-case @NAME@ run that shares its closing @ with a real template
+            post = sym_str(choose(2, 'postlen%d' % i), 'post%d' % i, alphabet='aA@ $')
             cmd.append(pre + TOKENS[choose(len(TOKENS), 'token%d' % i)] + post)
         try:
             got = mesonlib.substitute_values(list(cmd), values)
@@ -709,7 +709,7 @@ def obligations(tier):
         out.append(Obligation('exe-wrapper-argv%s' % lens, ob_wrapper_argv(lens, WOPT if max(lens) > 2 else '-hcfu=x'), dict(arg_lengths=lens, modes='capture | feed | both', alphabet=WOPT,
                               argparse='stdlib, executed symbolically'), labels=('parsed',), optional_labels=('pickled',), max_paths=5000000))
     for n in (1,) if q else (1, 2):
-        out.append(Obligation('templates[%d]' % n, ob_templates(n), dict(arguments=n, shape='0-1 chars over {a, @, space, $} + one of %d template tokens (or none) + 0-1 chars' % len(TOKENS),
+        out.append(Obligation('templates[%d]' % n, ob_templates(n), dict(arguments=n, shape='0-2 chars over {a, A, @, space, $} + one of %d template tokens (or none) + 0-1 chars' % len(TOKENS),
                               inputs='1-2', outputs='1-2'), labels=('substituted', 'rejected'), max_paths=5000000))
     for lens in ([1], [2], [1, 1]) if q else ([1], [2], [3], [1, 1], [2, 2]):
         out.append(Obligation('join-split%s' % lens, ob_joinsplit(lens), dict(arg_lengths=lens), labels=('done',), max_paths=3000000))
